@@ -170,15 +170,11 @@ fn step(r: &mut Run, op: Op) -> Result<bool, (String, String)> {
                 let class = classify_rotation(&before, &now, n);
                 return Err((format!("rotate:{class}"), format!("rotate({n}) at height {height}: before {before:?} after {now:?}; expected a cyclic shift by one of exactly the top {n}")));
             }
-            if n >= 3 && right != left {
-                let dir = is_right;
-                match r.direction {
-                    None => r.direction = Some(dir),
-                    Some(d) if d != dir => {
-                        return Err(("rotate:direction-flips".into(), format!("rotate({n}) shifted in the opposite direction of an earlier rotation")))
-                    }
-                    _ => {}
-                }
+            if n >= 3 && right != left && !is_right {
+                // the documented direction (doc comment of `rotate`: "rotates them to the right",
+                // [.., p3, p2, p1] -> [.., p1, p3, p2]): the top population moves to the bottom of the window
+                r.direction = Some(false);
+                return Err(("rotate:shifts-against-the-documented-direction".into(), format!("rotate({n}) at height {height}: before {before:?} after {now:?}; documented: the top population moves to the bottom of the top-{n} window")));
             }
             Ok(n >= 2)
         }
@@ -403,6 +399,10 @@ fn rotation_laws(rep: &Reporter) {
                     rep.violation(&format!("rotate:{}", classify_rotation(&orig, &f, n)), json!({"kind": "rotation-law", "height": height, "n": n, "before": format!("{orig:?}"), "after_one": format!("{f:?}")}));
                     continue;
                 }
+                if f != right {
+                    rep.violation("rotate:shifts-against-the-documented-direction", json!({"kind": "rotation-law", "height": height, "n": n, "before": format!("{orig:?}"), "after_one": format!("{f:?}")}));
+                    continue;
+                }
             }
             if now != orig {
                 rep.violation("rotate:n-applications-do-not-restore", json!({"kind": "rotation-law", "height": height, "n": n, "before": format!("{orig:?}"), "after_n": format!("{now:?}")}));
@@ -466,6 +466,8 @@ fn components(rep: &Reporter) {
                     let (right, left) = rot_candidates(&pops, n);
                     if now != right && now != left {
                         rep.violation(&format!("RotatePopulations:{}", classify_rotation(&pops, &now, n)), json!({"n": n, "height": height, "before": format!("{pops:?}"), "after": format!("{now:?}")}));
+                    } else if now != right {
+                        rep.violation("RotatePopulations:shifts-against-the-documented-direction", json!({"n": n, "height": height, "before": format!("{pops:?}"), "after": format!("{now:?}")}));
                     }
                 }
             }
@@ -562,7 +564,7 @@ fn components(rep: &Reporter) {
 
 fn main() {
     let rep = Reporter::from_args("C04");
-    rep.rule("histories over {push k-sized, pop, try_pop, rotate n, three in-place edits} on Populations<TagP> vs a Vec<Vec<tag>> model with a full-depth sweep after every op; exhaustive up to the stated length, plus seeded random histories, rotation laws for all n<=height<=7, and the five population utility components on prepared states; distinct_nontrivial counts distinct (stack height, applicable op) pairs in exhaustive histories, distinct random histories, and distinct component input classes");
+    rep.rule("histories over {push k-sized, pop, try_pop, rotate n, three in-place edits} on Populations<TagP> vs a Vec<Vec<tag>> model with a full-depth sweep after every op; exhaustive up to the stated length, plus seeded random histories, rotation laws for all n<=height<=7 (cyclic shift by one of exactly the top n, in the documented direction: the top population moves to the bottom of the window), and the five population utility components on prepared states; distinct_nontrivial counts distinct (stack height, applicable op) pairs in exhaustive histories, distinct random histories, and distinct component input classes");
     rep.assume("Individual<TagP> equality (tag, objective bits) identifies individuals");
     let (len, max_rot) = rep.tier.pick((5usize, 3u8), (7usize, 4u8));
     rep.set("exhaustive_history_length", json!(len));
